@@ -409,6 +409,12 @@ class C09(core.Check):
             p_ = zckref.parse(d_)
             ch_ = [(c["digest"] if c["comp_len"] else bytes(len(c["digest"])), c["udigest"], c["comp_len"], c["len"]) for c in p_.chunks]
             bases.append({"name": "empty-chunk-zero-digest-h%d" % cht_, "data": basefiles.rebuild(p_, d_, chunks=ch_, data_digest=p_.data_digest), "content": zckref.decode(d_).content})
+        # the same chunk at several places of the index (same checksum, same sizes): every occurrence has bytes of its own on disk
+        for comp_ in (0, 2):
+            X_ = gen_content_rand(300, 77 + comp_)
+            pcs_ = [X_, gen_content_rand(120, 5), X_, gen_content_rand(90, 6), X_]
+            d_ = zckref.make_file(pcs_, comp_type=comp_, chunk_hash_type=1)
+            bases.append({"name": "repeated-chunk-c%d" % comp_, "data": d_, "content": b"".join(pcs_), "repeats": [1, 3, 5]})
         # files of another writer (reference writer): unused bytes behind the signatures, optional header elements
         for rb_ in basefiles.ref_set(self.seed + 9, 6 if self.quick else 16):
             if "hdrtail" in rb_["name"] or "optelems" in rb_["name"] or not self.quick:
@@ -427,6 +433,16 @@ class C09(core.Check):
                 states.append(["ok"] * n)
                 for _ in range(14 if self.quick else 80):
                     states.append([r.choice(["ok", "ok", "zero", "garbage", "bit", "absent"]) for _ in range(n)])
+            if b.get("repeats"):
+                # first occurrence intact, a later one damaged (and the other way round), one kind at a time
+                for bad_k in b["repeats"]:
+                    for kind_ in ("zero", "garbage", "bit"):
+                        st_ = ["ok"] * n
+                        st_[bad_k] = kind_
+                        states.append(st_)
+                st_ = ["ok"] * n
+                st_[b["repeats"][-1]] = "absent"
+                states.append(st_)
             for si, st in enumerate(states):
                 disk = make_state(r, b, p, st)
                 words = list(WORDS1)
